@@ -143,6 +143,11 @@ func checkC02(c C02Case) *Violation {
 	if err != nil {
 		return vio("write-failed", "%v\nargs=%v\n%s", err, d.Flags.Argv(), d.YAML())
 	}
+	return compareTiming(d, song)
+}
+
+// compareTiming: onsets, lengths and order of a decoded song against the exact-rational model.
+func compareTiming(d Doc, song *smfread.Song) *Violation {
 	ctx := fmt.Sprintf("\nargs=%v\n%s", d.Flags.Argv(), d.YAML())
 	spans, prob := pairNotes(song)
 	if prob != "" {
